@@ -420,6 +420,8 @@ CLI_CORPUS_KEYS = {
     "C09": ("exact=1", "timing=1"),
     "C12": ("exact=1", "meaningmax"),
     "C15": ("mode=file",),
+    "C01": ("pushgw",),
+    "C16": ("pushgw", "static"),
 }
 
 
@@ -495,6 +497,10 @@ def cli_corpus():
         c(mode="constant", dur=d200, conc=3, rate=hx("3/50ms"), dist=none, leakcheck=1, failevery=2),
         c(mode="users", dur=hx("900ms"), conc=10500, bodyms=400, expectfull=1),                                      # every one of 10 500 users runs
         c(mode="file", fdur=6000, conc=2, maxit=3, bodyms=5, fstages="c:3000:5/100ms", retmax=1500),                 # the limit ends a config-file run at once
+        c(mode="users", dur=d200, conc=2, bodyms=3, maxit=20, failevery=3, pushgw="ok", static=1),                  # what reaches the push gateway: counts and labels
+        c(mode="constant", dur=hx("300ms"), conc=1, rate=hx("10/50ms"), dist=none, bodyms=30, igndrop=1, pushgw="fail1", static=1),
+        c(mode="file", fdur=500, conc=2, bodyms=2, maxit=9, failevery=2, fstages="u:300:2", pushgw="ok", static=1),
+        c(mode="users", dur=d200, conc=2, bodyms=3, pushgw="down", leakcheck=0),
         c(mode="constant", dur=d200, conc=2, raw=hx("--nope")),
         c(mode="constant", dur=d200, conc=2, raw=hx("extra-positional")),
     ]
